@@ -23,8 +23,10 @@ for c in checks:
     r = subprocess.run(["./check", c, "quick"], cwd=V, env=dict(os.environ, SMG_REPO=wt), capture_output=True, text=True)
     first = next((l for l in r.stdout.splitlines() if l.startswith(("VIOLATION", "INCONCLUSIVE", "HELD"))), "")
     runs[c] = {"exit": r.returncode, "first_line": first[:400]}
+base = subprocess.run(["git", "-C", wt, "rev-parse", "--short", "HEAD"], capture_output=True, text=True).stdout.strip()
 meta = {
     "property": prop,
+    "base_commit": base,
     "origin": "written by an independent sub-agent that was given only the property text and its own scratch git worktree of /repo (nothing from /verif)",
     "change": e["change"],
     "needs_to_manifest": e["needs"],
